@@ -4,7 +4,7 @@ Level S correspondence: every transition of real AndersonCD runs (hook events) a
 moves; oracle: the optimality violation recomputed from X, y and the returned (w, b) alone."""
 from .solver_common import run_parallel, run_bbox
 
-LEAN_MODULES = ["Skglm.Properties.C01", "Skglm.Properties.BCD", "Skglm.Properties.ProxNewton", "Skglm.Properties.ProxNewtonDir", "Skglm.Properties.MultiTask", "Skglm.Properties.GramCD", "Skglm.Properties.LBFGS"]
+LEAN_MODULES = ["Skglm.Properties.C01", "Skglm.Properties.BCD", "Skglm.Properties.ProxNewton", "Skglm.Properties.ProxNewtonDir", "Skglm.Properties.MultiTask", "Skglm.Properties.GramCD", "Skglm.Properties.LBFGS", "Skglm.Properties.PDCD", "Skglm.Properties.Anderson"]
 
 
 def run(ctx, rep):
@@ -22,6 +22,7 @@ def run(ctx, rep):
     moves_common.run_mt_moves(ctx, rep, ctx.n(20, 300))
     moves_common.run_gram_moves(ctx, rep, ctx.n(30, 300))
     moves_common.run_lbfgs(ctx, rep)
+    moves_common.run_pdcd(ctx, rep, ctx.n(25, 300))
 
 
 def replay(ctx, payload):
